@@ -1,5 +1,6 @@
 import RomeaProofs.Lemmas.C14Basic
 import RomeaProofs.Lemmas.C14Axis
+import RomeaProofs.Lemmas.C14Count
 import Mathlib.Analysis.SpecialFunctions.Sqrt
 
 /-!
@@ -48,13 +49,20 @@ theorem setEnd_step (i : Fin d) :
     (setEnd sp G s p).step.at i = sgn ((setEnd sp G s p).dir.at i) := by
   simp [setEnd, sgn]
 
+/-- the geometric first crossing parameter `(voxelBorder - origin) / direction` of RayTracing.cpp:122-124 -/
+noncomputable def firstT (G : Grid d ℝ) (s₀ : State d ℝ) (i : Fin d) : ℝ :=
+  (centre1 G i (s₀.oIdx.at i) + ((s₀.step.at i : Int) : ℝ) * G.r * (1 / 2) - s₀.o.at i) / s₀.dir.at i
+
+theorem setEnd_rem (i : Fin d) :
+    (setEnd sp G s p).rem.at i = iabs (toInt32 ((cellIndexes G p).at i) - toInt32 (s.oIdx.at i)) := by
+  simp [setEnd]
+
 theorem setEnd_tMax (i : Fin d) :
     (setEnd sp G s p).tMax.at i =
-      if (setEnd sp G s p).step.at i ≠ 0 then
-        (centre1 G i (s.oIdx.at i) + (((setEnd sp G s p).step.at i : Int) : ℝ) * G.r * (1 / 2) - s.o.at i)
-          / (setEnd sp G s p).dir.at i
+      if (setEnd sp G s p).rem.at i = 0 then Big.M
+      else if (setEnd sp G s p).step.at i ≠ 0 then firstT G (setEnd sp G s p) i
       else Big.M := by
-  simp [setEnd, centre, maxVal_real]
+  simp [setEnd, centre, maxVal_real, firstT]
 
 theorem setEnd_tDelta (i : Fin d) :
     (setEnd sp G s p).tDelta.at i =
@@ -69,10 +77,12 @@ structure RayFacts (G : Grid d ℝ) (o e : Vec d ℝ) (R : ℝ) (s₀ : State d 
   RltM : R < Big.M
   σ_cases : ∀ i, s₀.step.at i = 0 ∨ s₀.step.at i = 1 ∨ s₀.step.at i = -1
   moving : ∀ i, s₀.step.at i ≠ 0 →
-    AxisFacts (G.fmin.at i) G.r (o.at i) (e.at i) R (s₀.tMax.at i) (s₀.tDelta.at i)
+    AxisFacts (G.fmin.at i) G.r (o.at i) (e.at i) R (firstT G s₀ i) (s₀.tDelta.at i)
       (s₀.step.at i) (s₀.oIdx.at i) (s₀.eIdx.at i)
-  still : ∀ i, s₀.step.at i = 0 →
-    e.at i = o.at i ∧ s₀.eIdx.at i = s₀.oIdx.at i ∧ s₀.tMax.at i = Big.M ∧ s₀.tDelta.at i = Big.M
+  still : ∀ i, s₀.step.at i = 0 → e.at i = o.at i ∧ s₀.eIdx.at i = s₀.oIdx.at i
+  idx : ∀ i, 0 ≤ s₀.oIdx.at i ∧ s₀.oIdx.at i < 2 ^ 29 ∧ 0 ≤ s₀.eIdx.at i ∧ s₀.eIdx.at i < 2 ^ 29
+  rem0 : ∀ i, s₀.rem.at i = needed s₀ i
+  tmax0 : ∀ i, s₀.tMax.at i = if needed s₀ i = 0 then Big.M else firstT G s₀ i
   inK : ∀ i, InClosed G i (s₀.oIdx.at i) (o.at i)
 
 omit [Big] in
@@ -111,43 +121,16 @@ theorem fresh_facts {lo hi : Vec d ℝ} {r : ℝ} (hG : GridOK lo hi r) {sp : Sp
   have hspecK := fun i => cellIndexes_spec hG o ho i
   have hspecE := fun i => cellIndexes_spec hG e he i
   have hGr : G.r = r := rfl
-  refine ⟨hRpos, hM, ?_, ?_, ?_, ?_⟩
-  · intro i
-    rw [hstep i]; unfold sgn
-    split_ifs <;> simp
-  · intro i hmov
-    have hT := setEnd_tMax sp G s₁ e i
-    have hδ := setEnd_tDelta sp G s₁ e i
-    rw [← hs₀, if_pos hmov] at hT hδ
-    rw [centre1_eq] at hT
+  have hidx : ∀ i, 0 ≤ s₀.oIdx.at i ∧ s₀.oIdx.at i < 2 ^ 29 ∧ 0 ≤ s₀.eIdx.at i ∧ s₀.eIdx.at i < 2 ^ 29 := by
+    intro i
     have hk := hspecK i
     have he' := hspecE i
     simp only [] at hk he'
-    rw [← hGdef] at hk he'
-    unfold face at hk he' hT
-    by_cases hpos : 0 < s₀.dir.at i
-    · have hσ : s₀.step.at i = 1 := by rw [hstep i]; unfold sgn; simp [hpos]
-      rw [hσ] at hT ⊢
-      refine axis_pos (D := s₀.dir.at i) hG.hr hRpos (hdir i) hpos ?_ hδ ?_ ?_
-      · rw [hT]; rfl
-      · rw [hK i]; exact ⟨hk.1, by push_cast at hk; exact hk.2.1⟩
-      · rw [hE i]; exact ⟨he'.1, by push_cast at he'; exact he'.2.1⟩
-    · have hneg : s₀.dir.at i < 0 := by
-        rcases lt_trichotomy (s₀.dir.at i) 0 with h | h | h
-        · exact h
-        · exfalso; apply hmov; rw [hstep i]; unfold sgn; simp [h]
-        · exact absurd h hpos
-      have hσ : s₀.step.at i = -1 := by
-        rw [hstep i]; unfold sgn; simp [hneg, not_lt.mpr hneg.le]
-      rw [hσ] at hT ⊢
-      refine axis_neg (D := s₀.dir.at i) hG.hr hRpos (hdir i) hneg ?_ hδ ?_ ?_
-      · rw [hT]; rfl
-      · rw [hK i]; exact ⟨hk.1, by push_cast at hk; exact hk.2.1⟩
-      · rw [hE i]; exact ⟨he'.1, by push_cast at he'; exact he'.2.1⟩
-  · intro i hst
-    have hT := setEnd_tMax sp G s₁ e i
-    have hδ := setEnd_tDelta sp G s₁ e i
-    rw [← hs₀, if_neg (by simpa using hst)] at hT hδ
+    rw [hK i, hE i]
+    refine ⟨hk.2.2.1, lt_trans hk.2.2.2 ?_, he'.2.2.1, lt_trans he'.2.2.2 ?_⟩ <;>
+      (rw [mkGrid_n hG]; exact hG.hfit i)
+  have hstill : ∀ i, s₀.step.at i = 0 → e.at i = o.at i ∧ s₀.eIdx.at i = s₀.oIdx.at i := by
+    intro i hst
     have hD0 : s₀.dir.at i = 0 := by
       have := hstep i
       rw [hst] at this
@@ -164,9 +147,66 @@ theorem fresh_facts {lo hi : Vec d ℝ} {r : ℝ} (hG : GridOK lo hi r) {sp : Sp
         · exact h
         · exact absurd h hRpos.ne'
       linarith
-    refine ⟨heq, ?_, hT, hδ⟩
+    refine ⟨heq, ?_⟩
     rw [hK i, hE i]
     simp only [cellIndexes, at_build, heq]
+  have hrem : ∀ i, s₀.rem.at i = needed s₀ i := by
+    intro i
+    have := setEnd_rem sp G s₁ e i
+    rw [← hs₀] at this
+    rw [this]
+    obtain ⟨h1, h2, h3, h4⟩ := hidx i
+    have e1 : (cellIndexes G e).at i = s₀.eIdx.at i := (hE i).symm
+    have e2 : s₁.oIdx.at i = s₀.oIdx.at i := rfl
+    rw [e1, e2, toInt32_id h3 (lt_trans h4 (by norm_num)), toInt32_id h1 (lt_trans h2 (by norm_num)), iabs_eq]
+    unfold needed
+    simp
+  refine ⟨hRpos, hM, ?_, ?_, hstill, hidx, hrem, ?_, ?_⟩
+  · intro i
+    rw [hstep i]; unfold sgn
+    split_ifs <;> simp
+  · intro i hmov
+    have hδ := setEnd_tDelta sp G s₁ e i
+    rw [← hs₀, if_pos hmov] at hδ
+    have hT : firstT G s₀ i = (centre1 G i (s₀.oIdx.at i) + ((s₀.step.at i : Int) : ℝ) * G.r * (1 / 2) - o.at i)
+        / s₀.dir.at i := rfl
+    rw [centre1_eq] at hT
+    have hk := hspecK i
+    have he' := hspecE i
+    simp only [] at hk he'
+    rw [← hGdef] at hk he'
+    unfold face at hk he' hT
+    by_cases hpos : 0 < s₀.dir.at i
+    · have hσ : s₀.step.at i = 1 := by rw [hstep i]; unfold sgn; simp [hpos]
+      rw [hσ] at hT ⊢
+      refine axis_pos (D := s₀.dir.at i) hG.hr hRpos (hdir i) hpos ?_ hδ ?_ ?_
+      · rw [hT]
+      · rw [hK i]; exact ⟨hk.1, by push_cast at hk; exact hk.2.1⟩
+      · rw [hE i]; exact ⟨he'.1, by push_cast at he'; exact he'.2.1⟩
+    · have hneg : s₀.dir.at i < 0 := by
+        rcases lt_trichotomy (s₀.dir.at i) 0 with h | h | h
+        · exact h
+        · exfalso; apply hmov; rw [hstep i]; unfold sgn; simp [h]
+        · exact absurd h hpos
+      have hσ : s₀.step.at i = -1 := by
+        rw [hstep i]; unfold sgn; simp [hneg, not_lt.mpr hneg.le]
+      rw [hσ] at hT ⊢
+      refine axis_neg (D := s₀.dir.at i) hG.hr hRpos (hdir i) hneg ?_ hδ ?_ ?_
+      · rw [hT]
+      · rw [hK i]; exact ⟨hk.1, by push_cast at hk; exact hk.2.1⟩
+      · rw [hE i]; exact ⟨he'.1, by push_cast at he'; exact he'.2.1⟩
+  · intro i
+    have hT := setEnd_tMax sp G s₁ e i
+    rw [← hs₀, hrem i] at hT
+    rw [hT]
+    by_cases h0 : needed s₀ i = 0
+    · simp [h0]
+    · have hmov : s₀.step.at i ≠ 0 := by
+        intro hst
+        apply h0
+        unfold needed
+        rw [(hstill i hst).2]; simp
+      simp [h0, hmov]
   · intro i
     have hk := hspecK i
     simp only [] at hk
